@@ -13,9 +13,9 @@ ASSUMPTIONS = [
 def conditions(tier, seed):
     t = 300 if tier == 'quick' else 3000
     out = []
-    for sch in ['uid', 'str', 'int', 'bool', 'real', 'uid_str', 'int_uid', 'shared']:
-        nb = 2 if (tier == 'quick' or sch in ('uid_str', 'int_uid', 'shared')) else 3
-        ns = 1 if sch in ('int', 'bool', 'real') else 4 if sch in ('uid', 'str', 'shared') else 8
+    for sch in ['uid', 'str', 'int', 'bool', 'real', 'uid_str', 'int_uid', 'int_int', 'shared']:
+        nb = 2 if (tier == 'quick' or sch in ('uid_str', 'int_uid', 'int_int', 'shared')) else 3
+        ns = 1 if sch in ('int', 'bool', 'real') else 4 if sch in ('uid', 'str', 'shared', 'int_int') else 8
         if tier == 'thorough':
             ns *= 4
         for sh in range(ns):
@@ -53,8 +53,8 @@ def conditions(tier, seed):
                             bound='%s model: 4 permutations x every partition into up to three parts, given through %s' % (model, route),
                             case_split=['ci (permutation, partition)'], realised=['model text, files'], twin=(route in ('input', 'zip'))))
     for route in ('new', 'clone'):
-        for sch in ['uid', 'str', 'int', 'uid_str', 'shared']:
-            ns = 1 if sch == 'int' else 4 if sch in ('uid', 'str', 'shared') else 8
+        for sch in ['uid', 'str', 'int', 'uid_str', 'int_int', 'shared']:
+            ns = 1 if sch == 'int' else 4 if sch in ('uid', 'str', 'shared', 'int_int') else 8
             for sh in range(ns):
                 out.append(Cond('api_%s_%s_s%d' % (route, sch, sh), 'c03_api.py', dict(schema=sch, nb=2, shard=sh, nshards=ns, route=route),
                                 timeout=t, bound='schema %s: rows created through %s (referred first) vs the same rows loaded; every pool key assignment within multiplicity (shard %d/%d)' % (sch, route, sh, ns),
